@@ -95,6 +95,43 @@ class calendar_parse:
         }
 
 
+def _month_end_witnesses(case, model):
+    """real month-end dates (per the reference converters) for a counter-model over the
+    uninterpreted calendar functions"""
+    from pyvc import extcal
+
+    cal = CAL[case["calendar"]]
+    lo, hi = RANGE[case["calendar"]]
+    months = [JALALI_MONTHS.index(case["month"]) + 1] if "month" in case else [12, 7]
+    out = []
+    nd = 1 if case["form"] == "d1-month-y" else 2
+    for mth in months:
+        for y in range(lo, hi + 1):
+            if case["calendar"] == "hijri" and (y + mth) % 5:
+                continue
+            L = int(extcal.spec_month_length(cal, y, mth))
+            if L >= 10 ** nd:
+                continue
+            vals = dict(model)
+            for i, ch in enumerate(str(y).zfill(4)):
+                vals["Y%d" % i] = int(ch)
+            for i, ch in enumerate(str(mth).zfill(2)):
+                vals["M%d" % i] = int(ch)
+            for i, ch in enumerate(str(L).zfill(nd)):
+                vals["D%d" % i] = int(ch)
+            for k in ("H0", "H1", "T0", "T1"):
+                if k in vals:
+                    vals[k] = 1
+            out.append(vals)
+    # leap-year month ends (the longer February-like month) first
+    out.sort(key=lambda v: -(v["D0"] * 10 + v.get("D1", 0)))
+    return out
+
+
+calendar_parse.witnesses = staticmethod(_month_end_witnesses)
+calendar_parse.witness_cap = 400
+
+
 class two_digit_year:
     name = "calendars.handle_two_digit_year"
     func = "dateparser.calendars.*.handle_two_digit_year"
